@@ -801,7 +801,24 @@ func (w *World) pluginSchema(c *Conn) *schema.CallableSchema {
 		),
 		schema.NewCallableStep[Input]("work_nosignal", inputSchema, outputs(), nil,
 			func(ctx context.Context, in Input) (string, any) { return hn(ctx, nil, in) }),
+		// one regular output, one error output, no signals
+		schema.NewCallableStep[Input]("work_simple", inputSchema, simpleOutputs(), nil,
+			func(ctx context.Context, in Input) (string, any) {
+				id, data := hn(ctx, nil, in)
+				if id == "cancelled" {
+					// (only when the container is being shut down) this step has no such output
+					return "error", ErrorOut{Reason: "terminated"}
+				}
+				return id, data
+			}),
 	)
+}
+
+func simpleOutputs() map[string]*schema.StepOutputSchema {
+	return map[string]*schema.StepOutputSchema{
+		"success": schema.NewStepOutputSchema(successSchema, nil, false),
+		"error":   schema.NewStepOutputSchema(errorSchema, nil, true),
+	}
 }
 
 // ForceShutdown kills the deployment's connection without logging (bubble tear-down only).
